@@ -16,6 +16,9 @@ ASSUME_FIBER = [
 ]
 
 
+LONG_MAX_LEN = 8
+
+
 def pipegen_step(res, prop, tier, seed, variant, stride, nrandom, enumerate_k=True):
     """run generated pipeline programs against the reference interpreter and merge the outcome into res"""
     import os
@@ -31,6 +34,9 @@ def pipegen_step(res, prop, tier, seed, variant, stride, nrandom, enumerate_k=Tr
             sets.append(("l1", pgrun.l1_programs(coro, stride)))
         if nrandom > 0:
             sets.append(("rnd", pgrun.random_programs(seed, nrandom, coro)))
+        if nrandom > 0 and tier == "thorough":
+            # deeper bound: chains of up to LONG_MAX_LEN steps (the quick tier and the "rnd" set stop at 4)
+            sets.append(("long", pgrun.random_programs(seed + 7919, max(300, nrandom // 3), coro, LONG_MAX_LEN)))
         for tag, progs in sets:
             binary = pgrun.build_binary(progs, variant, tag)
             recs, crashes = pgrun.run_binary(binary, enumerate_k=enumerate_k)
@@ -42,7 +48,7 @@ def pipegen_step(res, prop, tier, seed, variant, stride, nrandom, enumerate_k=Tr
             res.checks += st["runs"] * 8
             res.engines.append({"family": "pipegen/" + tag, "variant": variant, "mode": "single-thread deterministic", "sanitizer": "asan" if "asan" in variant else "none",
                                 "cases": st["runs"], "programs": st["programs"], "runs_per_mode": st["per_mode"], "eager_twins_compared": st["twins_compared"],
-                                "exhaustive_length1_stride": stride if tag == "l1" else None, "wall_s": round(time.time() - t0, 2), "complete": True})
+                                "exhaustive_length1_stride": stride if tag == "l1" else None, "max_chain_length": 1 if tag == "l1" else (LONG_MAX_LEN if tag == "long" else 4), "wall_s": round(time.time() - t0, 2), "complete": True})
             for smp in st["samples"][:6]:
                 if len(res.samples) < 24:
                     res.samples.append({"engine": "pipegen/" + variant, "case": smp})
@@ -52,7 +58,8 @@ def pipegen_step(res, prop, tier, seed, variant, stride, nrandom, enumerate_k=Tr
                 f = bykey.get(v["key"])
                 if f is None:
                     f = driver.Finding(prop, v["key"], v["case"], v["detail"], "pipegen", variant, 0,
-                                       {"engine": "pipegen", "variant": variant, "tag": tag, "seed": seed, "stride": stride, "nrandom": nrandom, "program": v["prog"]})
+                                       {"engine": "pipegen", "variant": variant, "tag": tag, "seed": seed + 7919 if tag == "long" else seed, "stride": stride,
+                                        "nrandom": max(300, nrandom // 3) if tag == "long" else nrandom, "max_len": LONG_MAX_LEN if tag == "long" else 4, "program": v["prog"]})
                     f.props = props
                     bykey[v["key"]] = f
                 f.count += 1
@@ -63,7 +70,7 @@ def pipegen_step(res, prop, tier, seed, variant, stride, nrandom, enumerate_k=Tr
     res.wall += time.time() - t0
 
 
-PIPEGEN_RULE = ("pipegen: every program = source x 1-4 steps (attach mode x callback signature x return kind incl. inner Future/"
+PIPEGEN_RULE = ("pipegen: every program = source x 1-4 steps (thorough tier: an extra set with 1-8 steps) (attach mode x callback signature x return kind incl. inner Future/"
                 "SharedFuture/Task heads) x start/tail; each program is run once without rejection and then once per rejection "
                 "point k (from the k-th Submit on, and only the k-th) — the enumeration over k is complete per program; each run "
                 "is compared with the sequential reference interpreter (callback order and arguments, executor tag, final Result, "
